@@ -278,6 +278,53 @@ pub fn run(a: &Args, rep: &mut Report) {
         rep.set("helpers", "bpf_trace_printf");
     }
 
+    // ---- the pure helpers called by 8 threads at once, each on its own arguments and buffers ----
+    if !cfg!(miri) {
+        #[derive(Debug)]
+        enum Item {
+            Gather([u64; 5]),
+            Sqrt(u64),
+            Frob(Vec<u8>),
+            Cmp(Vec<u8>, Vec<u8>),
+        }
+        let mut items: Vec<Item> = Vec::new();
+        for k in 0..4000u64 {
+            items.push(match k % 4 {
+                0 => Item::Gather([rng.interesting_u64().0, rng.below(256), rng.next(), rng.below(1 << 20), rng.below(256)]),
+                1 => Item::Sqrt(if k % 8 == 1 { let r = rng.below(1 << 32); (r * r).wrapping_sub(rng.below(2)) } else { rng.interesting_u64().0 }),
+                2 => {
+                    let l = *rng.pick(&[0usize, 1, 7, 8, 9, 64, 300]);
+                    Item::Frob(rng.bytes(l))
+                }
+                _ => {
+                    let mut a1: Vec<u8> = (0..rng.below(40)).map(|_| 1 + rng.below(255) as u8).collect();
+                    let mut b1 = a1.clone();
+                    if rng.chance(1, 2) && !b1.is_empty() {
+                        let i = rng.below(b1.len() as u64) as usize;
+                        b1[i] = b1[i].wrapping_add(1).max(1);
+                    }
+                    a1.push(0);
+                    b1.push(0);
+                    Item::Cmp(a1, b1)
+                }
+            });
+        }
+        let f = |it: &Item| -> Result<(u64, Vec<u8>), String> {
+            sys::catch(|| match it {
+                Item::Gather(t) => (helpers::gather_bytes(t[0], t[1], t[2], t[3], t[4]), Vec::new()),
+                Item::Sqrt(x) => (helpers::sqrti(*x, 0, 0, 0, 0), Vec::new()),
+                Item::Frob(b) => {
+                    let mut own = b.clone();
+                    let r = helpers::memfrob(own.as_mut_ptr() as u64, own.len() as u64, 0, 0, 0);
+                    (r, own)
+                }
+                Item::Cmp(x, y) => (helpers::strcmp(x.as_ptr() as u64, y.as_ptr() as u64, 0, 0, 0), Vec::new()),
+            })
+            .map_err(|p| sys::panic_site(&p))
+        };
+        let (execs, bad) = crate::mon_par::par_same(&items, f, if q { 3 } else { 10 });
+        crate::mon_par::report_par(rep, "C19", "helpers", execs, bad, |i| json!({"item": format!("{:?}", items[i]).chars().take(200).collect::<String>()}));
+    }
     // ---- memfrob / strcmp on guard-paged buffers, in forked children ----
     let n_mem = if cfg!(miri) { 40 } else { (n / 60).max(400) as usize };
     struct MCase {
